@@ -437,6 +437,9 @@ def run(ctx):
     # ------------------------------------------------ one cell text through an xlsx file (FX7; last)
     run_xlsx_cells(ctx, stats)
 
+    # ------------------------------------------------ which headers become columns of an exported sheet (FX7)
+    run_sheet_headers(ctx, stats)
+
     ctx.stats["c07"] = stats
     v.coverage["distinct_nontrivial"] = len(nontrivial)
     v.coverage["rule"] = (
@@ -489,12 +492,13 @@ def join_keeps_blank_last():
         return None
 
 
-def fill_packed_blanks(t, v, comps, T):
-    """the instance with every blank str field of a PACKED model node set to "z" (the counterfactual of finding
-    packed-model-blank-value-under-nonblank-default)"""
+def fill_packed_blanks(t, v, comps, T, packed=False):
+    """the instance with every blank str field (non-blank default) of a PACKED model node set to "z" (the counterfactual
+    of finding packed-model-blank-value-under-nonblank-default).  A node is packed when a target header matches it or
+    when it is the value of a renamed field (unparse_row writes a renamed field into one cell)."""
     k = t[0]
     if k == "model":
-        packed = rowgen.matches(comps, T)
+        packed = packed or rowgen.matches(comps, T)
         out = {}
         for (n, ft, d) in t[2]:
             h = t[4].get(n, n)
@@ -503,9 +507,9 @@ def fill_packed_blanks(t, v, comps, T):
             elif h == n:
                 out[n] = fill_packed_blanks(ft, v[n], comps + [h], T)
             else:
-                out[n] = v[n]
+                out[n] = fill_packed_blanks(ft, v[n], comps + [h], T, packed=True)
         return out
-    if k == "list" and not rowgen.matches(comps, T):
+    if k == "list" and not packed and not rowgen.matches(comps, T):
         return [fill_packed_blanks(t[1], x, comps + [str(i + 1)], T) for i, x in enumerate(v)]
     return v
 
@@ -554,6 +558,57 @@ def run_xlsx_cells(ctx, stats):
                 ctx.disagree("xlsx cell: model could not decode the request", t, o, b)
             elif mo != (b if b is not None else ""):
                 ctx.disagree("xlsx cell text read back", t, mo, b)
+
+
+def run_sheet_headers(ctx, stats):
+    """The header stream (FX7, finding single-column-sheet-export-crashes): sheets of 0-4 rows of a four-field model,
+    each row writing a random subset of the fields (40 % of the rows a single one).  Oracle: every header a row writes is
+    a column of the sheet RowDataSheet builds (and the table can be built at all).  Correspondence: Io/SheetHeaders.v
+    (engine 107 fn 11) gives the same set of columns."""
+    v, rng, m = ctx.v, ctx.rng, ctx.model
+    n = (600 if ctx.tier == "thorough" else 80) * ctx.scale
+    names = ["a", "b", "c", "d"]
+    sheets = [[["b"], ["b"]], [["a", "b"], ["c"]], [["d"]]]
+    while len(sheets) < n:
+        rows = []
+        for _ in range(rng.choice([0, 1, 1, 2, 2, 3, 4])):
+            k = 1 if rng.random() < 0.4 else rng.choice([0, 2, 2, 3, 4])
+            rows.append(sorted(rng.sample(names, k)))
+        sheets.append(rows)
+    stats["header_sheets"] = len(sheets)
+    stats["header_sheets_with_one_column_row"] = sum(any(len(r) == 1 for r in sh) for sh in sheets)
+    try:
+        probe = _rowfix_tables().sheet_header_set
+    except Exception as e:
+        v.failing_input("file-roundtrip-csv", f"the header probe cannot be loaded: {e!r}", dict(fn="headers", sheets=[]))
+        return
+    got = []
+    lost = []
+    for sh in sheets:
+        v.coverage["evaluations"] += 1
+        r = run_cli_mode(lambda: probe(sh))
+        got.append(r)
+        want = sorted({h for row in sh for h in row})
+        if r[0] != "ok" or r[1] != want:
+            lost.append((sh, r))
+    if lost:
+        single = [x for x in lost if any(len(row) == 1 for row in x[0])]
+        other = [x for x in lost if x not in single]
+        if single:
+            v.failing_input("single-column-sheet-export-crashes",
+                            f"{len(single)} sheet(s) with a one-column row lack the header of that row, e.g. {single[:3]!r}",
+                            dict(fn="headers", sheets=[x[0] for x in single][:6]))
+        if other:
+            v.failing_input("file-roundtrip-csv", f"sheets whose columns are not the headers their rows write: {other[:3]!r}",
+                            dict(fn="headers", sheets=[x[0] for x in other][:6]))
+    if m:
+        outs = model_ask(m, ["(107 11 (" + " ".join(rowlib.e_strs(row) for row in sh) + "))" for sh in sheets])
+        for sh, r, o in zip(sheets, got, outs):
+            mo = sorted(rowlib.d_str(x) for x in o) if isinstance(o, list) and all(isinstance(x, list) for x in o) else None
+            if mo is None:
+                ctx.disagree("sheet headers: model could not decode the request", sh, o, r)
+            elif r[0] != "ok" or mo != r[1]:
+                ctx.disagree("sheet headers (as a set)", sh, mo, r)
 
 
 def flush_domain(ctx, m, dom_batch, stats, key="generic-roundtrip", what="row_dom"):
@@ -1030,6 +1085,13 @@ def replay(rep):
         print("cells:", un)
         print("back :", back)
         return un[0] == "ok" and back[0] == "ok" and _deep_eq(back[1], erase_excluded(flow_desc(), r["value"], X))
+    if r["fn"] == "headers":
+        ok = True
+        for sh in r["sheets"]:
+            got = run_cli_mode(lambda: _rowfix_tables().sheet_header_set(sh))
+            print("rows", sh, "->", got)
+            ok = ok and got[0] == "ok" and got[1] == sorted({h for row in sh for h in row})
+        return ok
     if r["fn"] == "xlsx_cells":
         got = run_cli_mode(lambda: _rowfix_tables().xlsx_cells_roundtrip(r["texts"]))
         print("read back:", got)
